@@ -137,6 +137,17 @@ static int copy_single_buffer(struct buffered_socket *bs, const char *buf, size_
 static int copy_iovec_to_write_buffer(struct buffered_socket *bs, const struct socket_io_vector *io_vec,
                                       unsigned int count, size_t iovec_written)
 {
+	/* Queue the rest of the frame completely or not at all. */
+	size_t rest_of_frame = 0;
+	for (unsigned int i = 0; i < count; i++) {
+		rest_of_frame += io_vec[i].iov_len;
+	}
+	rest_of_frame -= iovec_written;
+	if (unlikely(rest_of_frame > CONFIG_MAX_WRITE_BUFFER_SIZE - bs->to_write)) {
+		log_err("not enough space left in write buffer! %zu bytes of %i left", CONFIG_MAX_WRITE_BUFFER_SIZE - bs->to_write, CONFIG_MAX_WRITE_BUFFER_SIZE);
+		return -1;
+	}
+
 	for (unsigned int i = 0; i < count; i++) {
 		if (iovec_written < io_vec[i].iov_len) {
 			const char *buffer_start = (const char *)io_vec[i].iov_base + iovec_written;
